@@ -240,32 +240,32 @@ var spell = map[string][]string{
 // words a directive's setup compares argument VALUES with (not sub-directive keywords): half of
 // the "wd" tokens of such a directive are drawn from here, so that the deeper branches are reached
 var dict = map[string][]string{
-	"basicauth": {"htpasswd=missing.htpasswd", "htpasswd=@SCRATCH@/exist.txt", "htpasswd=@SCRATCH@/htpasswd", "bob"},
-	"errors":    {"visible", "stdout", "stderr", "syslog", "404", "500", "*"},
-	"log":       {"stdout", "stderr", "syslog", "{combined}", "{common}", "255.255.255.0", "ffff::"},
-	"tls":       {"off", "self_signed", "tls1.2", "tls1.3", "tls1.0", "p256", "rsa2048", "x25519", "p384", "ECDHE-RSA-AES128-GCM-SHA256", "h2", "request", "require", "me@example.com", "@SCRATCH@/cert.pem", "@SCRATCH@/key.pem"},
-	"proxy":     {"random", "least_conn", "round_robin", "first", "ip_hash", "uri_hash", "header", "127.0.0.1:9", "X-Name", "{host}"},
-	"fastcgi":   {"php", "127.0.0.1:9", ".php", "index.php", "KEY"},
-	"redir":     {"301", "302", "307", "308", "meta", "{uri}", "is", "not", "and", "or", "{path}"},
-	"rewrite":   {"{path}", "{uri}", "is", "not", "and", "or", "^/a", "/index.php?{query}", ".html"},
-	"status":    {"404", "200", "500"},
-	"timeouts":  {"none", "0"},
-	"header":    {"X-Name", "-Server", "+Vary", "value"},
-	"mime":      {".txt", "text/plain", "ext_defaults"},
-	"ext":       {".html", ".php"},
-	"on":        {"startup", "shutdown", "certrenew", "&"},
-	"websocket": {"respawn", "lines", "text", "binary", "cat"},
-	"gzip":      {".txt", "9", "-1"},
-	"internal":  {"/internal"},
-	"bind":      {"127.0.0.1", "localhost", "::1"},
-	"index":     {"index.html", "home.htm"},
-	"push":      {"GET", "HEAD", "POST", "X-Name", "/style.css"},
-	"limits":    {"1kb", "0"},
-	"markdown":  {".md", "style.css"},
-	"browse":    {"@SCRATCH@/exist.txt"},
-	"templates": {".html", "{{", "}}"},
-	"expvar":    {"/stats"},
-	"pprof":     {},
+	"basicauth":  {"htpasswd=missing.htpasswd", "htpasswd=@SCRATCH@/exist.txt", "htpasswd=@SCRATCH@/htpasswd", "bob"},
+	"errors":     {"visible", "stdout", "stderr", "syslog", "404", "500", "*"},
+	"log":        {"stdout", "stderr", "syslog", "{combined}", "{common}", "255.255.255.0", "ffff::"},
+	"tls":        {"off", "self_signed", "tls1.2", "tls1.3", "tls1.0", "p256", "rsa2048", "x25519", "p384", "ECDHE-RSA-AES128-GCM-SHA256", "h2", "request", "require", "me@example.com", "@SCRATCH@/cert.pem", "@SCRATCH@/key.pem"},
+	"proxy":      {"random", "least_conn", "round_robin", "first", "ip_hash", "uri_hash", "header", "127.0.0.1:9", "X-Name", "{host}"},
+	"fastcgi":    {"php", "127.0.0.1:9", ".php", "index.php", "KEY"},
+	"redir":      {"301", "302", "307", "308", "meta", "{uri}", "is", "not", "and", "or", "{path}"},
+	"rewrite":    {"{path}", "{uri}", "is", "not", "and", "or", "^/a", "/index.php?{query}", ".html"},
+	"status":     {"404", "200", "500"},
+	"timeouts":   {"none", "0"},
+	"header":     {"X-Name", "-Server", "+Vary", "value"},
+	"mime":       {".txt", "text/plain", "ext_defaults"},
+	"ext":        {".html", ".php"},
+	"on":         {"startup", "shutdown", "certrenew", "&"},
+	"websocket":  {"respawn", "lines", "text", "binary", "cat"},
+	"gzip":       {".txt", "9", "-1"},
+	"internal":   {"/internal"},
+	"bind":       {"127.0.0.1", "localhost", "::1"},
+	"index":      {"index.html", "home.htm"},
+	"push":       {"GET", "HEAD", "POST", "X-Name", "/style.css"},
+	"limits":     {"1kb", "0"},
+	"markdown":   {".md", "style.css"},
+	"browse":     {"@SCRATCH@/exist.txt"},
+	"templates":  {".html", "{{", "}}"},
+	"expvar":     {"/stats"},
+	"pprof":      {},
 	"request_id": {"X-Request-ID"},
 }
 
